@@ -48,6 +48,13 @@ fn fixture(mult: u128) -> Option<Fx> {
     Some(Fx { mult, state: s.next_unsealed(), coins })
 }
 
+/// The genesis coin itself (2^120 MEL under the always-true covenant) at the given multiplier: nothing has to be accepted first.
+fn fixture_genesis(mult: u128) -> Fx {
+    let w = world_mel(NetID::Custom02, 1 << 120, mult);
+    let g = w.genesis.clone().seal(None);
+    Fx { mult, state: g.next_unsealed(), coins: vec![(CoinID::zero_zero(), 1 << 120)] }
+}
+
 fn build(fx: &Fx, n_in: usize, n_out: usize, extra: &Option<Bytes>, data_len: usize, fee: u128) -> Option<Transaction> {
     let ins: Vec<CoinID> = fx.coins.iter().take(n_in).map(|c| c.0).collect();
     let total: u128 = fx.coins.iter().take(n_in).map(|c| c.1).sum();
@@ -347,6 +354,63 @@ pub fn run(run: &Run) {
             None => run.outcome("saturating-minimum:fixture-unavailable"),
         });
         run.set("saturating_minimum_grid", json!({"multipliers": big_mults.iter().map(|m| m.to_string()).collect::<Vec<_>>(), "covenants": heavy.iter().map(|c| c.0).collect::<Vec<_>>(), "data_len_without_covenant": [70000, 140000], "fee_minus_min": [-1, 0, 1]}));
+    }
+    // Where weight x multiplier reaches 2^128 and beyond.  The statement's minimum is weight x multiplier / 65536 whatever the
+    // size of the product: around the multiplier m* at which the product of a plain transfer first leaves 128 bits the minimum
+    // (about 2^112) is still a payable amount, further out no fee a transaction can name pays it.  The fixture spends the genesis
+    // coin (2^120 MEL) itself, so that it does not depend on a faucet being accepted at such a multiplier.
+    {
+        let probe = {
+            let fx = fixture_genesis(1 << 100);
+            build(&fx, 1, 1, &None, 0, 1 << 112).map(|t| ref_tx_weight(&t)).unwrap_or(1100)
+        };
+        let m_star = (u128::MAX / probe) + 1; // smallest multiplier with probe-weight x multiplier >= 2^128
+        let mults: Vec<u128> = vec![1 << 110, 1 << 112, m_star - (1 << 100), m_star - 1, m_star, m_star + 1, m_star + (1 << 100), 1 << 117, 1 << 118, 1 << 120, 1 << 127, u128::MAX];
+        let mut cases = 0u64;
+        for m in &mults {
+            let fx = fixture_genesis(*m);
+            for d in [-1i64, 0, 1] {
+                one_case(run, &fx, 1, 1, &("none", None), 0, d);
+                cases += 1;
+            }
+            // explicit fees, whatever the fixed point does: every one of them is judged against the exact minimum
+            for fee in [0u128, 1, (1 << 112) - 2, (1 << 112) - 1, 1 << 112, (1 << 112) + 1, 1 << 116, (1 << 120) - 1, 1 << 120] {
+                cases += 1;
+                let tx = match build(&fx, 1, 1, &None, 0, fee) {
+                    Some(t) => t,
+                    None => match build(&fx, 1, 0, &None, 0, fee) {
+                        Some(t) => t,
+                        None => continue,
+                    },
+                };
+                run.transition();
+                let min = ref_min_fee(&tx, *m);
+                let mut st = fx.state.clone();
+                let got = guard(|| st.apply_tx(&tx));
+                run.validated();
+                let replay = json!({"fee_multiplier": m.to_string(), "fee": fee.to_string(), "reference_min_fee": min.to_string(), "reference_weight": ref_tx_weight(&tx).to_string(), "tx": tx_json(&tx)});
+                let region = if min == u128::MAX { "minimum-beyond-128-bits" } else if min > (1 << 120) { "minimum-above-every-fee" } else { "minimum-payable" };
+                match got {
+                    Err(_) => run.outcome("panic(reported under C09)"),
+                    Ok(Ok(())) if fee < min => run.violation(
+                        "C05",
+                        format!("underpaying-accepted/product-beyond-128-bits/{}", region),
+                        format!("multiplier {}: a transfer of weight {} paying {} was accepted; weight x multiplier / 65536 = {}", m, ref_tx_weight(&tx), fee, if min == u128::MAX { ">= 2^128".to_string() } else { min.to_string() }),
+                        replay,
+                    ),
+                    Ok(Ok(())) => run.outcome(&format!("huge-multiplier:{}:accepted-at-or-above", region)),
+                    Ok(Err(melstf::StateError::InsufficientFees(_))) if fee >= min => run.violation(
+                        "C05",
+                        format!("paying-rejected/product-beyond-128-bits/{}", region),
+                        format!("multiplier {}: a transfer of weight {} paying {} >= minimum {} was refused for its fee", m, ref_tx_weight(&tx), fee, min),
+                        replay,
+                    ),
+                    Ok(Err(_)) => run.outcome(&format!("huge-multiplier:{}:rejected", region)),
+                }
+            }
+        }
+        run.states_add(cases);
+        run.set("product_beyond_128_bits_grid", json!({"multipliers": mults.iter().map(|m| m.to_string()).collect::<Vec<_>>(), "m_star": m_star.to_string(), "probe_weight": probe.to_string(), "fees": ["0", "1", "2^112-2", "2^112-1", "2^112", "2^112+1", "2^116", "2^120-1", "2^120"], "fee_minus_min": [-1, 0, 1]}));
     }
     run.set("loop_shape_covenants", json!(loop_shape_covenants().len()));
     run.set("grid", json!({"multipliers": mults.iter().map(|m| m.to_string()).collect::<Vec<_>>(), "inputs": [1, 2, 3], "outputs": [0, 1, 2, 3, 255], "extra_covenants": covs.iter().map(|c| c.0).collect::<Vec<_>>(), "data_len": [0, 1, 100], "fee_minus_min": deltas, "cases": cases.len()}));
